@@ -196,3 +196,39 @@ func SwitchAssigns(path, recv, fn, tagField string) ([][]string, error) {
 	}
 	return nil, fmt.Errorf("%s: function %s.%s not found", path, recv, fn)
 }
+
+// Statements lists, in source order, the canonical forms of the decisions and field updates of a function:
+// "if <cond>" for every if / else-if condition (init statements rendered as "<lhs> := <rhs>; "), "set <lhs> = <rhs>"
+// for every assignment whose destination is a field or an indexed element, "inc"/"dec" for ++/--.
+func Statements(path, recv, fn string) ([]string, error) {
+	fset := token.NewFileSet()
+	f, err := parser.ParseFile(fset, path, nil, 0)
+	if err != nil {
+		return nil, err
+	}
+	for _, d := range f.Decls {
+		fd, ok := d.(*ast.FuncDecl)
+		if !ok || fd.Body == nil || fd.Name.Name != fn || recvName(fd) != recv {
+			continue
+		}
+		var out []string
+		ast.Inspect(fd.Body, func(n ast.Node) bool {
+			switch x := n.(type) {
+			case *ast.IfStmt:
+				out = append(out, "if "+Render(x.Cond))
+			case *ast.AssignStmt:
+				if len(x.Lhs) == 1 && len(x.Rhs) == 1 {
+					switch x.Lhs[0].(type) {
+					case *ast.SelectorExpr, *ast.IndexExpr:
+						out = append(out, "set "+Render(x.Lhs[0])+" "+x.Tok.String()+" "+Render(x.Rhs[0]))
+					}
+				}
+			case *ast.IncDecStmt:
+				out = append(out, x.Tok.String())
+			}
+			return true
+		})
+		return out, nil
+	}
+	return nil, fmt.Errorf("%s: function %s.%s not found", path, recv, fn)
+}
